@@ -1560,15 +1560,19 @@ func (h *hist) genOp(r *rand.Rand, ck *clock, search bool) opSpec {
 		o.Kind = "mapadmin"
 		o.U, o.C, o.D = 0, r.Intn(len(chains)), 2
 		o.K = h.freeContract(r, o.C)
-		if hostile || o.K < 0 {
+		if hostile || o.K < 0 || r.Intn(4) == 0 {
 			switch r.Intn(3) {
 			case 0:
 				o.U = 1 + r.Intn(2) // not the admin
 			case 1:
 				o.D = r.Intn(2) // not a factory denom
 			default:
-				en := pickEntry() // contract already bound on that chain
+				en := pickEntry() // contract already bound on that chain ...
 				o.C, o.K = en.C, en.K
+				if pend := append(append([]txo{}, s.pool...), batchTxs(s)...); len(pend) > 0 && r.Intn(4) != 0 {
+					t := pend[r.Intn(len(pend))] // ... preferably the contract of a pending transfer
+					o.C, o.K = t.chain, t.contract
+				}
 			}
 		}
 		if o.K < 0 {
@@ -1736,6 +1740,14 @@ func (h *hist) genOp(r *rand.Rand, ck *clock, search bool) opSpec {
 		}
 	}
 	return o
+}
+
+func batchTxs(s snap) []txo {
+	var out []txo
+	for _, b := range s.batches {
+		out = append(out, b.txs...)
+	}
+	return out
 }
 
 func hasRow(rows []entry, c, d int) bool {
